@@ -69,6 +69,7 @@ type funcRun struct {
 	enc  *Enc
 	err  error
 	wall float64
+	presolved bool
 }
 
 func cmdCheck(args []string) int {
@@ -138,11 +139,18 @@ func cmdCheck(args []string) int {
 		r.enc, r.err = VerifyLemma(p, lm)
 		runs = append(runs, r)
 	}
+	if *prop == "C10" {
+		// iteration-order obligations: decided by the structural commutation rules of order.go
+		r := &funcRun{key: "order"}
+		r.enc = VerifyOrder(p, *prop)
+		r.presolved = true
+		runs = append(runs, r)
+	}
 	// solve in parallel
 	var wg sync.WaitGroup
 	sem := make(chan struct{}, 6)
 	for _, r := range runs {
-		if r.err != nil || r.enc == nil {
+		if r.err != nil || r.enc == nil || r.presolved {
 			continue
 		}
 		wg.Add(1)
@@ -251,6 +259,21 @@ func report(p *Program, prop, tier string, seed int, runs []*funcRun, pin, verbo
 		os.MkdirAll(filepath.Join(verifDir, "obligations"), 0o755)
 		os.WriteFile(filepath.Join(verifDir, "obligations", prop+".pinned"), []byte(b.String()), 0o644)
 		fmt.Printf("pinned %d obligations for %s\n", n, prop)
+		// members of a pinned group that are NOT discharged on the unchanged tree: never claimed
+		pg := map[string]bool{}
+		for _, nm := range names {
+			if byName[nm].Result == "unsat" {
+				pg[oblGroup(nm)] = true
+			}
+		}
+		var ub strings.Builder
+		fmt.Fprintf(&ub, "# obligations of %s in pinned groups that are undecided on the unchanged tree (not claimed)\n", prop)
+		for _, nm := range names {
+			if byName[nm].Result != "unsat" && (pg[oblGroup(nm)] || byName[nm].Kind == "order") {
+				ub.WriteString(nm + "\n")
+			}
+		}
+		os.WriteFile(filepath.Join(verifDir, "obligations", prop+".undecided"), []byte(ub.String()), 0o644)
 		pinned, pinCommit = loadPinned(prop)
 	}
 	_ = pinCommit
@@ -271,12 +294,37 @@ func report(p *Program, prop, tier string, seed int, runs []*funcRun, pin, verbo
 	groupMembers := map[string]int{}
 	var undecidedNew []string
 	extraDischarged := 0
+	baselineUndecided := map[string]bool{}
+	if data, err := os.ReadFile(filepath.Join(verifDir, "obligations", prop+".undecided")); err == nil {
+		for _, l := range strings.Split(string(data), "\n") {
+			l = strings.TrimSpace(l)
+			if l != "" && !strings.HasPrefix(l, "#") {
+				baselineUndecided[l] = true
+			}
+		}
+	}
 	for _, n := range names {
 		o := byName[n]
 		g := oblGroup(n)
+		if baselineUndecided[n] && o.Result != "unsat" {
+			groupMembers[g]++
+			if kf, ok := knownOpen[n]; ok {
+				knownLines = append(knownLines, fmt.Sprintf("KNOWN-FINDING: property=%s %s: %s", prop, n, kf.What))
+			} else if kf, ok := knownOpen[g]; ok {
+				knownLines = append(knownLines, fmt.Sprintf("KNOWN-FINDING: property=%s %s: %s", prop, n, kf.What))
+			} else {
+				undecidedNew = append(undecidedNew, n+" => "+o.Result+" (undecided on the unchanged tree as well)")
+			}
+			continue
+		}
 		if !pinnedGroups[g] {
 			if o.Result == "unsat" {
 				extraDischarged++
+			} else if o.Kind == "order" && !baselineUndecided[n] && o.Extra["definite"] == "1" && knownOpen[n].Property == "" && knownOpen[g].Property == "" {
+				// a range-over-map loop that was not there (or was discharged) on the unchanged tree and
+				// whose body exhibits an order-dependent value
+				claimed++
+				fails = append(fails, failure{n, "new order-dependent loop: " + o.Extra["why"], o})
 			} else if kf, ok := knownOpen[n]; ok {
 				knownLines = append(knownLines, fmt.Sprintf("KNOWN-FINDING: property=%s %s: %s", prop, n, kf.What))
 			} else if kf, ok := knownOpen[g]; ok {
@@ -350,11 +398,15 @@ func report(p *Program, prop, tier string, seed int, runs []*funcRun, pin, verbo
 			rep["where"] = fl.o.Where
 			rep["solver_result"] = fl.o.Result
 			rep["solvers"] = fl.o.Extra
-			ce := findCounterexample(p, fl.o)
-			for k, v := range ce.report {
-				rep[k] = v
+			if fl.o.Kind == "order" {
+				rep["note"] = "no iteration-order independence rule applies to this loop any more; the rule engine gives no witness order"
+			} else {
+				ce := findCounterexample(p, fl.o)
+				for k, v := range ce.report {
+					rep[k] = v
+				}
+				confirmed = ce.confirmed
 			}
-			confirmed = ce.confirmed
 		}
 		data, _ := json.MarshalIndent(rep, "", " ")
 		os.WriteFile(rp, data, 0o644)
